@@ -563,10 +563,11 @@ class Lwv(PseudoRiscvInstruction):
         if (
             self.rd.num in range(8, 16)
             and self.rs1.num in range(8, 16)
-            and self.offset in range(128)
+            and self.offset in range(0, 128, 4)
         ):
+            # The compressed forms encode offset / 4
             yield CLw(self.rd, self.offset, self.rs1)
-        elif self.rs1.num == 2 and self.offset >= 0 and self.offset < 256:
+        elif self.rs1.num == 2 and self.offset in range(0, 256, 4):
             yield CLwsp(self.rd, self.offset, self.rs1)
         else:
             yield Lw(self.rd, self.offset, self.rs1)
@@ -585,11 +586,11 @@ class Swv(PseudoRiscvInstruction):
             and (self.rs2.num >= 8)
             and (self.rs1.num <= 15)
             and (self.rs1.num >= 8)
-            and (self.offset >= 0)
-            and (self.offset < 128)
+            and self.offset in range(0, 128, 4)
         ):
+            # The compressed forms encode offset / 4
             yield CSw(self.rs2, self.offset, self.rs1)
-        elif self.rs1.num == 2 and self.offset >= 0 and self.offset < 256:
+        elif self.rs1.num == 2 and self.offset in range(0, 256, 4):
             yield CSwsp(self.rs2, self.offset, self.rs1)
         else:
             yield Sw(self.rs2, self.offset, self.rs1)
